@@ -1136,6 +1136,8 @@ def main(R):
     c14_prob.check(R, ok)
     from . import c14_plumb
     c14_plumb.check(R, ok)
+    from . import c14_wrap
+    c14_wrap.check(R, ok)
 
 
 def replay(body):
@@ -1150,6 +1152,9 @@ def replay(body):
     if case.get("kind") == "plumb":
         from . import c14_plumb
         return c14_plumb.replay(case)
+    if case.get("kind") == "wrap":
+        from . import c14_wrap
+        return c14_wrap.replay(case)
     o = process(case)
     print("oracle on the implementation:")
     for (label, detail, sig) in o["fails"]:
